@@ -682,11 +682,23 @@ def cli_multifile(ctx, files, jobs):
         elif r < 0.5:
             junk = bytes([rng.randrange(1, 256)]) + bytes(rng.getrandbits(8) for _ in range(rng.randrange(0, 9)))
             pool.append((fi, f["data"] + junk, ("x", 8, "a", len(f["data"]), None)))    # trailing garbage
-    for f in files:
-        if f["fmt"] == "lzma" and not f.get("large"):
-            pool.append((files.index(f), f["data"], ("x", 8, "w", 0, None)))
+    base_files = [(k, f) for k, f in enumerate(files) if not f.get("large") and not f.get("crafted")]
+    for (k, f) in base_files:
+        if f["fmt"] == "lzma":
+            pool.append((k, f["data"], ("x", 8, "w", 0, None)))
+            pool.append((k, f["data"] + b"\x55garbage", ("x", 8, "a", len(f["data"]), None)))
     rng.shuffle(pool)
     batches = [pool[i:i + 5] for i in range(0, len(pool), 5)]
+    # ordered batches aimed at per-file state: a file whose format allows trailing data (.lz) right before files whose
+    # format does not (.lzma, .xz with garbage appended), and the other way round
+    lzs = [(k, f) for (k, f) in base_files if f["fmt"] == "lz"][:6]
+    others = [(k, f) for (k, f) in base_files if f["fmt"] in ("lzma", "xz")]
+    rng.shuffle(others)
+    for (kl, fl_) in lzs:
+        for (ko, fo) in others[:6]:
+            junk = bytes([rng.randrange(1, 256)]) + b"tail"
+            batches.append([(kl, fl_["data"], ("x", 8, "w", 0, None)), (ko, fo["data"] + junk, ("x", 8, "a", len(fo["data"]), None)),
+                            (kl, fl_["data"] + junk, ("x", 8, "a", len(fl_["data"]), None)), (ko, fo["data"], ("x", 8, "w", 0, None))])
     root = os.path.join(vlib.CACHE, "c05-cli")
 
     def decode(items, tag):
